@@ -21,6 +21,15 @@ func vhBuildC20(g *vhDigits, depth, maxw int, label string, nodes *[]Stack) Stac
 	}
 	cfg, _ := s.config()
 	cfg.opt = cfgFlag(nondetUint16()) & (parens | negidx | fwdidx)
+	// display options must not influence which wrappers are removed
+	switch g.next(4) {
+	case 1:
+		cfg.opt |= cfold
+	case 2:
+		if cfg.typ != list {
+			cfg.sym = "!"
+		}
+	}
 	if g.next(3) == 0 {
 		cfg.mtx = &sync.Mutex{}
 	}
@@ -168,6 +177,48 @@ func VH_C20(p []int) {
 	g := &vhDigits{d: p[2:]}
 	var nodes []Stack
 	root := vhBuildC20(g, p[0], p[1], "", &nodes)
+	vhCheckReveal(root, nodes)
+}
+
+// vhCollect lists every Stack node of a tree.
+func vhCollect(x any, out *[]Stack) {
+	if s, ok := vhStackOf(x); ok {
+		*out = append(*out, s)
+		for i := 1; i < len(*s.stack); i++ {
+			vhCollect((*s.stack)[i], out)
+		}
+	} else if c, ok := vhCondOf(x); ok {
+		vhCollect(c.Expression(), out)
+	}
+}
+
+// Hand-built shapes: NOT wrappers whose display word is folded or replaced by
+// a symbol, mutex-enabled single-child envelopes at every slot, chains.
+// p: which
+func VH_C20_Named(p []int) {
+	var root Stack
+	pb := func() bool { return nondetBool() }
+	switch p[0] {
+	case 0:
+		root = And().Push("x", Not().SetFold(true).SetParen(pb()).Push(Or().SetParen(pb()).Push("a", "b")))
+	case 1:
+		root = Or().Push(Not().SetSymbol("!").SetParen(pb()).Push(Cond("k", Eq, "v").SetParen(pb())), "y")
+	case 2:
+		root = And().Push(Not().SetFold(true).Push(Not().SetSymbol("~").Push(And().Push("deep"))))
+	case 3: // mutex-enabled single-child envelope at slot 0, 1, 2
+		env := func() Stack { return Or().SetMutex().SetParen(pb()).Push(And().SetParen(pb()).Push("m1", "m2")) }
+		root = And().SetMutex().Push(env(), env(), env())
+	case 4: // chain of single wrappers ending in a condition holding a stack
+		root = And().Push(Or().Push(And().SetMutex().Push(Cond("k", Ne, List().Push(Or().Push("z"))))))
+	case 5:
+		root = List().Push(And().SetFold(true).Push(Or().SetSymbol("|").Push("p", "q")), Not().Push(And().Push("r")))
+	}
+	var nodes []Stack
+	vhCollect(root, &nodes)
+	vhCheckReveal(root, nodes)
+}
+
+func vhCheckReveal(root Stack, nodes []Stack) {
 	leaves := vhLeaves(root, nil)
 	depth := vhDepth(root)
 	nf := vhNormal(root)
